@@ -258,7 +258,8 @@ class Leg(object):
     def __init__(self, name, run=None, gen=None, enum=None, bulk=None,
                  quick=200, thorough=5000, shards_quick=1, shards_thorough=16,
                  rule="", nt_floor=0.0, exhaustive=False, tiers=("quick",
-                                                                 "thorough")):
+                                                                 "thorough"),
+                 optimize=False):
         self.name = name
         self.run = run
         self.gen = gen            # callable(tier) -> hypothesis strategy
@@ -270,6 +271,25 @@ class Leg(object):
         self.nt_floor = nt_floor
         self.exhaustive = exhaustive
         self.tiers = tiers
+        # optimize: the shard subprocess (and a replay) runs under
+        # "python -O", i.e. with every assert statement of nfcpy compiled out
+        self.optimize = optimize
+
+
+def twin_O(leg, quick=None, thorough=None, shards_quick=None,
+           shards_thorough=None):
+    """the same search as `leg`, executed by an interpreter started with -O:
+    validation that rests on assert statements disappears there"""
+    return Leg(leg.name + "-O", run=leg.run, gen=leg.gen, enum=leg.enum,
+               bulk=leg.bulk,
+               quick=quick if quick is not None else leg.n["quick"],
+               thorough=thorough if thorough is not None else leg.n["thorough"],
+               shards_quick=shards_quick or leg.shards["quick"],
+               shards_thorough=shards_thorough or leg.shards["thorough"],
+               rule="as leg %s, under python -O (assert statements compiled "
+                    "out)." % leg.name,
+               nt_floor=leg.nt_floor, exhaustive=leg.exhaustive,
+               tiers=leg.tiers, optimize=True)
 
 
 def signature(leg, ctx_cls, v):
